@@ -46,6 +46,11 @@ FINGERPRINTS = [
     (L + "file_placement/linter.py", ["lint_path", "check", "_get_root_from_metadata"]),
     (L + "dry/violation_generator.py", ["generate_violations", "_filter_ignored", "_is_ignored", "_filter_shared_ignored"]),
     (L + "dry/linter.py", ["check", "_process_file", "_get_project_root", "finalize"]),
+    (L + "stringly_typed/linter.py", ["_should_analyze", "_check_python", "_check_typescript", "finalize", "_load_config"]),
+    (L + "stringly_typed/violation_generator.py", ["generate_violations", "_filter_by_ignore"]),
+    (L + "stringly_typed/ignore_checker.py", ["IgnoreChecker"]),
+    (L + "file_header/linter.py", ["check", "_should_ignore_file", "_matches_ignore_pattern", "_matches_directory_pattern", "_matches_file_pattern",
+                                   "_check_header_with_parser", "_load_config"]),
     (CORE, ["lint_files_parallel", "_collect_cross_file_evidence", "_execute_parallel_linting", "lint_directory_parallel", "_path_inside_project"]),
     ("src/cli/utils.py", ["_infer_root_from_config", "_determine_project_root_for_context", "get_project_root_from_context"]),
 ]
@@ -274,6 +279,7 @@ def _uses_cwd_parser(rel, cls) -> bool:
 
 
 _FP_CONSTS = ""
+_XF_CONSTS = ""
 
 
 def _sig(name, ikind, from_cfg, default, py="t_none", ts="t_none", rs="t_none", cwd=False):
@@ -363,17 +369,66 @@ def command_sigs():
     if "ignore_patterns=config.get('ignore', [])" not in fd:
         raise Unsupported("dry: ignore list is no longer read from config.get('ignore', [])")
     out.append(_sig("dry", "ISubstr", True, [], cwd=False))
-    return defn("command_sigs", "list cmdsig", "[" + ";\n  ".join(out) + "]") + _FP_CONSTS
+    # stringly-typed (cross-file): fnmatch(str(path), p) or p in str(path); DEFAULT_IGNORE_PATTERNS + configured entries; an ignored file
+    # is not analysed at all (gate); the violations pass an IgnoreChecker() built without a root (cwd-rooted ignore parser)
+    ST = L + "stringly_typed/"
+    _shape(ST + "ignore_utils.py", None, "is_ignored", {
+        "if not ignore_patterns:\n    return False\npath_str = str(file_path)\nfor pattern in ignore_patterns:\n"
+        "    if fnmatch.fnmatch(path_str, pattern):\n        return True\n    if pattern in path_str:\n        return True\nreturn False": 1})
+    _shape(ST + "linter.py", "StringlyTypedRule", "_should_analyze", {
+        "if not _is_ready_for_analysis(context, self._storage):\n    return False\nassert context.file_path is not None\n"
+        "return not is_ignored(context.file_path, config.ignore)": 1})
+    _shape(ST + "violation_generator.py", None, "_filter_by_ignore", {
+        "if not ignore:\n    return violations\nreturn [v for v in violations if not is_ignored(v.file_path, ignore)]": 1})
+    _shape(ST + "violation_generator.py", "ViolationGenerator", "__init__", {"self._ignore_checker = IgnoreChecker()": 1})
+    _shape(ST + "ignore_checker.py", "IgnoreChecker", "__init__", {
+        "self._ignore_parser = get_ignore_parser(project_root)\nself._file_content_cache: dict[str, str] = {}": 1})
+    st_default = str_elems(find_assign(parse(ST + "config.py"), "DEFAULT_IGNORE_PATTERNS"))
+    fd = _body(_fn(ST + "config.py", "StringlyTypedConfig", "_from_base_config"))
+    if "user_ignore = config.get('ignore', [])\nmerged_ignore = DEFAULT_IGNORE_PATTERNS.copy() + user_ignore" not in fd:
+        raise Unsupported("stringly-typed: ignore list is no longer DEFAULT_IGNORE_PATTERNS + config.get('ignore', [])")
+    out.append(_sig("stringly-typed", "IFnmatchOrSubstr", True, st_default, cwd=True))
+    # file-header: four-way ignore idiom; a file without any header is reported without passing the rule-level ignore parser
+    FH = L + "file_header/linter.py"
+    _shape(FH, "FileHeaderRule", "_should_ignore_file", {
+        "if not context.file_path:\n    return False\nfile_path = Path(context.file_path)\n"
+        "return any((self._matches_ignore_pattern(file_path, p) for p in config.ignore))": 1})
+    _shape(FH, "FileHeaderRule", "_matches_ignore_pattern", {
+        "if file_path.match(pattern):\n    return True\nif self._matches_directory_pattern(file_path, pattern):\n    return True\n"
+        "if self._matches_file_pattern(file_path, pattern):\n    return True\nreturn pattern in str(file_path)": 1})
+    _shape(FH, "FileHeaderRule", "_matches_directory_pattern", {
+        "if pattern.startswith('**/') and pattern.endswith('/**'):\n    dir_name = pattern[3:-3]\n    return dir_name in file_path.parts\nreturn False": 1})
+    _shape(FH, "FileHeaderRule", "_matches_file_pattern", {
+        "if pattern.startswith('**/'):\n    filename_pattern = pattern[3:]\n    path_str = str(file_path)\n"
+        "    return file_path.name == filename_pattern or path_str.endswith(filename_pattern)\nreturn False": 1})
+    if not _body(_fn(FH, "FileHeaderRule", "_check_header_with_parser")).startswith(
+            "header = parser.extract_header(context.file_content or '')\nif not header:\n    return self._build_missing_header_violations(context)\n"):
+        raise Unsupported("file-header: the missing-header path changed")
+    if not _body(_fn(FH, "FileHeaderRule", "check")).endswith(
+            "config = self._load_config(context)\nif self._should_ignore_file(context, config):\n    return []\nreturn self._check_language_header(context, config)"):
+        raise Unsupported("file-header: check() no longer applies the ignore list first")
+    c = find_class(parse(L + "file_header/config.py"), "FileHeaderConfig")
+    fh_default = None
+    for st_ in c.body:
+        if isinstance(st_, ast.AnnAssign) and isinstance(st_.target, ast.Name) and st_.target.id == "ignore":
+            v = st_.value
+            if isinstance(v, ast.Call) and v.keywords and isinstance(v.keywords[0].value, ast.Lambda):
+                fh_default = _lit_list(ast.unparse(v.keywords[0].value.body))
+    if fh_default is None or ast.unparse(find_func(c, "from_dict")).count("ignore=config_dict.get('ignore', defaults.ignore)") != 2:
+        raise Unsupported("file-header: default ignore list / from_dict fallback not found")
+    out.append(_sig("file-header", "IFileHeader", True, fh_default, cwd=False))
+    global _XF_CONSTS
+    _XF_CONSTS = (defn("merged_default_commands", "list string", coq_str_list(["stringly-typed"]))
+                  + defn("xfile_commands", "list (string * bool)", '[("dry", false); ("stringly-typed", true)]'))
+    return defn("command_sigs", "list cmdsig", "[" + ";\n  ".join(out) + "]") + _FP_CONSTS + _XF_CONSTS
 
 
 def other_ignore_kinds():
-    """linters whose ignore idiom is read off the source but whose cross-file pipeline is not modelled (kind-level theorems apply)"""
-    _shape(L + "dry/violation_generator.py", "ViolationGenerator", "_is_ignored", {
-        "path_str = str(Path(file_path))\nreturn any((pattern in path_str for pattern in ignore_patterns))": 1})
-    _shape(L + "stringly_typed/ignore_utils.py", None, "is_ignored", {
-        "if not ignore_patterns:\n    return False\npath_str = str(file_path)\nfor pattern in ignore_patterns:\n"
-        "    if fnmatch.fnmatch(path_str, pattern):\n        return True\n    if pattern in path_str:\n        return True\nreturn False": 1})
-    return defn("unmodelled_pipeline_ignore_kinds", "list (string * ikind)", '[("stringly-typed", IFnmatchOrSubstr)]')
+    """linters whose ignore idiom is read off the source but which have no pipeline in the model: cqs (no CLI command of its own)"""
+    mm = _shape_re(L + "cqs/linter.py", None, "_matches_ignore_pattern",
+                   r"return any\(\(fnmatch\(file_path, pattern\) for pattern in config\.ignore_patterns\)\)")
+    _ = mm
+    return defn("unmodelled_pipeline_ignore_kinds", "list (string * string)", '[("cqs", "fnmatch(str(path), pattern)")]')
 
 
 ITEMS = [
